@@ -42,4 +42,6 @@ def handleTs (toks : List String) : String :=
   let (_, outs) := ops.foldl (fun (st, outs) op => let (st', o) := tsOp st op; (st', o :: outs)) (#[[]], [])
   " ; ".intercalate outs.reverse
 
+def C14.handlers : List (String × (List String → String)) := [("ts", handleTs)]
+
 end Driver
